@@ -297,6 +297,7 @@ func execStore(t *testing.T, sc *ConcScenario, choose chooser) *execResult {
 		cj.base = w.FS.Base()
 	}
 	s := newSched(sc.Ticks, time.Duration(sc.Tick))
+	s.chanPoints = sc.Extra["chanPoints"] == true
 	recs := make([]callRec, 0, 8)
 	if pre, ok := sc.Extra["pre"].([]Op); ok {
 		// acknowledged but unflushed calls that precede the threads (so that a
@@ -354,13 +355,17 @@ func execStore(t *testing.T, sc *ConcScenario, choose chooser) *execResult {
 		// firing); a writer that is still waiting after three more ticks with
 		// nothing else to do waits for ever.
 		s.aborted = ""
-		s.ticks = 3
+		fairTicks := 3
+		if n, ok := sc.Extra["fairTicks"].(int); ok {
+			fairTicks = n
+		}
+		s.ticks = fairTicks
 		s.run(func(d *decision, idx int) int { return 0 })
 		res.steps = len(s.trace.decisions)
 		res.aborted = s.aborted
 		if s.aborted == "deadlock" {
 			blocked := s.harnessBlocked()
-			res.viol = viol("stuck-writer", "after the schedule and 3 further fair ticks %v still wait(s) although every flush succeeded: %s", blocked, s.describe())
+			res.viol = viol("stuck-writer", "after the schedule and %d further fair tick(s) %v still wait(s) although every flush succeeded: %s", fairTicks, blocked, s.describe())
 			res.outcome = "stuck-writer"
 			// clean up so that the bubble can end: create work and flush
 			s.releaseAll()
@@ -808,6 +813,23 @@ func c06Scenarios(tier string) []*ConcScenario {
 			scs = append(scs, sc)
 		}
 	}
+	// the file being appended to ends in a freed record, and the caller's Puts
+	// during the cycle fill it and roll over inside the write pool (36-byte
+	// limit = two 12-byte records + room for one more): what the collector
+	// takes for "files that are complete" is decided while records for the
+	// current file are still pending
+	{
+		c := cfg("mh", false, 8, 48, 36)
+		in := namedInit{"G5-free-tail-in-current-file", []Op{P(0, 1), P(1, 1), opF, R(1), opF}}
+		for _, cl := range [][]Op{{P(1, 2), P(3, 1)}, {P(1, 2), P(3, 1), opF}} {
+			ths := [][]Op{{{Kind: OpPriGC, A: 0}}, cl}
+			sc := &ConcScenario{Prop: "C06", Cfg: c, Init: in.ops, Threads: ths, Bound: bound, Exec: execStore,
+				Extra: map[string]any{"final": reopenFinal}}
+			sc.Name = fmt.Sprintf("c06/%s/%s/%s", c.String(), in.name, progString(ths))
+			sc.Desc = fmt.Sprintf("init %s [%s]; %s", in.name, opsString(in.ops), progString(ths))
+			scs = append(scs, sc)
+		}
+	}
 	for _, c := range cfgs {
 		for _, in := range inits {
 			for _, gc := range gcs {
@@ -849,19 +871,41 @@ func c12Scenarios(tier string) []*ConcScenario {
 		)
 	}
 	var scs []*ConcScenario
+	// Work as a writer measures it is inflated when keys share a bucket (the
+	// index counts the whole re-encoded record list on every Put), so a flush
+	// can write less than the writer measured. With the burst rate just below
+	// the measured work of two same-bucket Puts the second Put waits for a
+	// flush that writes less than the burst rate.
+	if m := c12MeasuredWork(c, []Op{P(0, 1), P(1, 1)}); m > 1 {
+		for _, selDesc := range []bool{false, true} {
+			cc := c
+			cc.SelDesc = selDesc
+			ths := [][]Op{{P(0, 1), P(1, 1)}}
+			// no tick at all: the flush the writer asks for is the only one, and
+			// it completes after the wait began
+			sc := &ConcScenario{Prop: "C12", Cfg: cc, Threads: ths, Bound: bound, Ticks: 0, Tick: int64(time.Second), Exec: execStore,
+				Extra: map[string]any{"sync": time.Second, "burst": int(m - 1), "flushRate": 1.0, "flusher": true, "fair": true, "fairTicks": 0, "chanPoints": true}}
+			sc.Name = fmt.Sprintf("c12/small-flush/seldesc=%v", selDesc)
+			sc.Desc = fmt.Sprintf("real flusher goroutine (sync interval 1s, burst rate %d = measured work of the two Puts - 1, flush rate preset so that writers wait), no tick, select priority desc=%v; %s", m-1, selDesc, progString(ths))
+			scs = append(scs, sc)
+		}
+	}
 	for pi, p := range progs {
 		for _, selDesc := range []bool{false, true} {
-			if tier == "quick" && selDesc && pi != 0 && pi != 3 {
+			if tier == "quick" && selDesc && pi == 2 {
 				continue
 			}
 			cc := c
 			cc.SelDesc = selDesc
 			ticks := ticks
-			if tier == "quick" && pi != 0 {
+			if tier == "quick" && (pi >= 2 || (pi == 1 && !selDesc)) {
+				// two ticks where they matter most: the single writer, and a
+				// second caller's signal left in flushNow while a tick comes
+				// due (descending select priority = ticker first)
 				ticks = 1
 			}
 			sc := &ConcScenario{Prop: "C12", Cfg: cc, Init: p.init, Threads: p.ths, Bound: bound, Ticks: ticks, Tick: int64(time.Second), Exec: execStore,
-				Extra: map[string]any{"sync": time.Second, "burst": 1, "flushRate": 1.0, "flusher": true, "fair": true}}
+				Extra: map[string]any{"sync": time.Second, "burst": 1, "flushRate": 1.0, "flusher": true, "fair": true, "fairTicks": 0, "chanPoints": true}}
 			sc.Name = fmt.Sprintf("c12/%s/seldesc=%v", p.name, selDesc)
 			sc.Desc = fmt.Sprintf("real flusher goroutine (sync interval 1s, burst rate 1, flush rate preset so that writers wait), %d ticks, select priority desc=%v; init [%s]; %s", ticks, selDesc, opsString(p.init), progString(p.ths))
 			scs = append(scs, sc)
@@ -940,6 +984,7 @@ func execClose(t *testing.T, sc *ConcScenario, choose chooser) *execResult {
 	}
 	w.S.Start()
 	s := newSched(sc.Ticks, time.Duration(sc.Tick))
+	s.chanPoints = sc.Extra["chanPoints"] == true
 	var recs []callRec
 	idxOf := make([][]int, len(sc.Threads))
 	for ti, prog := range sc.Threads {
@@ -1167,7 +1212,7 @@ func c17Scenarios(tier string) []*ConcScenario {
 			for _, selDesc := range []bool{false, true} {
 				cc := c
 				cc.SelDesc = selDesc
-				extra := map[string]any{"inProgress": p.inProg}
+				extra := map[string]any{"inProgress": p.inProg, "chanPoints": tier != "quick"}
 				sc := &ConcScenario{Prop: "C17", Cfg: cc, Init: p.init, Threads: p.ths, Bound: p.bound, Ticks: p.ticks, Tick: int64(p.tick), Exec: execClose, Extra: extra}
 				sc.Name = fmt.Sprintf("c17/%s/seldesc=%v", p.name, selDesc)
 				sc.Desc = fmt.Sprintf("real flusher + both collectors (sync 1s, GC interval 10s, primary GC first at 5s), %d tick(s) of %v, select priority desc=%v, bound %d; init [%s]; %s (Reopen[snapshot] stands for Close)", p.ticks, p.tick, selDesc, p.bound, opsString(p.init), progString(p.ths))
@@ -1559,4 +1604,19 @@ func c03ConcScenarios(tier string) []*ConcScenario {
 		}
 	}
 	return scs
+}
+
+// c12MeasuredWork runs ops sequentially on a fresh store and returns the
+// outstanding work a writer would measure after them.
+func c12MeasuredWork(c Config, ops []Op) uint64 {
+	w, err := NewWorld(c)
+	if err != nil {
+		return 0
+	}
+	defer w.Close()
+	for _, op := range ops {
+		var r callRec
+		w.doCall(op, &r)
+	}
+	return uint64(w.idx().OutstandingWork() + w.S.Primary().OutstandingWork() + w.S.VerifFreelist().OutstandingWork())
 }
